@@ -48,6 +48,9 @@ def goal(w):
 
 
 def factory(sc):
+    if "ops" in sc:
+        kw = {"max_steps": 900, "horizon": 60.0, "deviations": tuple(sc.get("dev", ("drop",)))}
+        return netsim.resolve_tickets(dict(sc["cfg"])), sc["ops"], [AckMonitor()], kw, goal
     cfg = dict(sc.get("cfg", {}))
     if sc["script"] == "bigchain_hs":
         cfg["chain"] = "bigchain"
@@ -92,6 +95,17 @@ def run(ctx):
         for s_ in ("bidir_long", "pingpong", "small_sparse"):
             lat["%s|lat%s" % (s_, la)] = {"script": s_, "cfg": {"latency": la}, "dev": ("drop", "delay", "late")}
     netcheck.explore_scenarios(ctx, "c12", lat, 1 if quick else 2, "large_rtt", sig_extra=sig_extra)
+    from vlib import cfgpairs
+
+    netcheck.explore_scenarios(ctx, "c12", cfgpairs.scenarios(ctx.seed), 1, "config_pairs_d1", sig_extra=sig_extra)
+    # a small packet from a new client address (NAT rebinding) on a long path: the acknowledgement competes with
+    # the anti-amplification budget of the not yet validated path (known finding, see known_findings.d/C12.json)
+    reb = {}
+    for la in (0.01, 0.1):
+        reb["ping_after_rebind|lat%s" % la] = {
+            "ops": {"c": [{"op": "ping", "uid": 1}, {"op": "ping", "uid": 2, "g": ("t", 1.0)}], "s": []},
+            "cfg": {"rebind_at": 0.6, "idle": 3.0, "latency": la}, "dev": ("drop",)}
+    netcheck.explore_scenarios(ctx, "c12", reb, 1, "rebind_small_packets", sig_extra=sig_extra)
     if len(agg["outcomes"]) < 3:
         raise core.HarnessError("vacuous exploration")
     from checks import c12_gaps
